@@ -210,6 +210,7 @@ def execute(case, chooser):
     gwsim.check_harness(res)
     hist = L.Hist(res)
     V, nmk = oracle(case, res, hist)
+    V += gwsim.livelock_violation(res, "c20")
     SV, ns = check_specs(case["specs"])
     V += SV
     sample = None
